@@ -55,7 +55,17 @@ class SearchingRetort(BaseRetort, Provider, ABC):
 
     def get_request_handlers(self) -> Sequence[tuple[type[Request], RequestChecker, RequestHandler]]:
         def retort_request_handler(mediator, request):
-            return self._provide_from_recipe(request)
+            try:
+                return self._provide_from_recipe(request)
+            except CannotProvide as e:
+                # a failure is final for the search of this retort only,
+                # the retort acting as a provider just declines the request
+                raise AggregateCannotProvide(
+                    "",
+                    [e],
+                    is_terminal=False,
+                    is_demonstrative=e.is_demonstrative,
+                ) from None
 
         request_classes = {
             request_cls
